@@ -378,6 +378,11 @@ def check_byte_queue(ctx, rule="C04.W1"):
 
 
 def run(ctx):
+    # frames are written completely: the packets handed to the connection partition the encoded block (rules shared with C10.P3)
+    from .. import report
+    from .c10 import check_process_send_queue
+
+    report.share(ctx, "C04.W1", check_process_send_queue)
     check_header(ctx)
     check_subclasses(ctx)
     _block.check_block_encode(ctx, "C04.B2")
